@@ -331,17 +331,17 @@ var (
 
 // Revision returns the ControllerRevision the real controller creates for
 // the set's template (harvested by a scratch reconcile on an empty cluster,
-// cached per set name and template). The object's Revision number is 1.
+// cached per set name, template and selector shape: the revision is the one the code under test makes for such a set). The object's Revision number is 1.
 func Revision(w *world.World, sp Spec, k int) *appsv1.ControllerRevision {
 	sp.Template = k
-	key := fmt.Sprintf("%s|%d|%v", sp.Name, k, sp.ExtraVols)
+	key := fmt.Sprintf("%s|%d|%v|%v", sp.Name, k, sp.ExtraVols, sp.SelExpr)
 	revMu.Lock()
 	r, ok := revCache[key]
 	revMu.Unlock()
 	if ok {
 		return r
 	}
-	scratch := Spec{Name: sp.Name, Replicas: 0, Policy: "OrderedReady", Strategy: RU(0), Limit: 10, Template: k, ExtraVols: sp.ExtraVols}
+	scratch := Spec{Name: sp.Name, Replicas: 0, Policy: "OrderedReady", Strategy: RU(0), Limit: 10, Template: k, ExtraVols: sp.ExtraVols, SelExpr: sp.SelExpr}
 	set := scratch.Build()
 	st := world.NewState()
 	st.API.Sets[set.Name] = set
